@@ -363,6 +363,9 @@ func (p *pair) deliver(dir int, to *side, df dirFaults, seed int64) {
 			for i := 0; i < 20000; i++ {
 				st, ok := tcp.VerifState(to.ep)
 				if ok && !st.SegQueue {
+					// everything handed over so far has been processed (and whatever the stack advertised
+					// before processing it has been logged by the tap)
+					p.log.add(M{"ev": "processed", "to": to.name})
 					break
 				}
 				if i < 100 {
@@ -721,7 +724,7 @@ func runPair(sc scenario) []M {
 	go p.deliver(0, p.b, sc.A2B, sc.Seed*7+1)
 	go p.deliver(1, p.a, sc.B2A, sc.Seed*7+2)
 	rs := M{"ev": "reset", "tag": sc.Tag, "mtu": int(mtu), "mtu_b": int(mtuB), "v": sc.V, "sack": sc.SACK, "cc": sc.CC,
-		"rcvbuf_a": sc.A.RcvBuf, "rcvbuf_b": sc.B.RcvBuf, "seed": int(sc.Seed), "sync": sc.Sync}
+		"rcvbuf_a": sc.A.RcvBuf, "rcvbuf_b": sc.B.RcvBuf, "seed": int(sc.Seed), "sync": sc.Sync, "procev": sc.Sync}
 	for k, v := range sc.Flags {
 		rs[k] = v
 	}
